@@ -451,6 +451,23 @@ Proof.
   - do 3 eexists. split; [vm_compute; reflexivity|]. split; vm_compute; reflexivity.
 Qed.
 
+
+(* ------------------------------------------------------------------ tie to the source by translation *)
+(** [BodyReader::for_response] is translated to Gallina from the repository's CURRENT source on every run
+    (tools/rs2coq.py -> theories/Gen.v, [gen_for_response]); the decision it makes equals the model's for all methods,
+    status codes and header values, so the theorems above are about what the code says now.  (The header parsing it calls,
+    [header_defined], is hand-modelled and tied by the correspondence check.) *)
+From Hoot Require Import Gen.
+From Hoot.proofs Require Import Gen_equiv_framing.
+Theorem c06_code_for_response : forall http10 m st cl te,
+  for_response http10 (method_eqb m HEAD) (method_eqb m CONNECT) st cl te =
+  match header_defined http10 cl te with
+  | Ok hd => Ok (gen_for_response http10 m st hd (present cl) (present te))
+  | Err e => Err e
+  | Panic s => Panic s
+  end.
+Proof. exact gen_for_response_eq. Qed.
+
 Print Assumptions c06_mode.
 Print Assumptions c06_applied.
 Print Assumptions c06_successor.
@@ -482,3 +499,4 @@ Print Assumptions c06_dev_first_field_only.
 Print Assumptions c06_redirect_te_gzip_flow.
 Print Assumptions c06_redirect_te_http10_flow.
 Print Assumptions c06_dev_nontext_te_redirect.
+Print Assumptions c06_code_for_response.
